@@ -1,5 +1,5 @@
-INIT MCInit
-NEXT MCNext
+INIT ObjInit
+NEXT ObjNext
 CONSTANTS
   Templates = {}
   ResKinds = {}
@@ -8,12 +8,15 @@ CONSTANTS
   MaxCalls = 0
   NewestFirst = TRUE
   RoutesFirst = TRUE
-  OtherForAll = FALSE
+  OtherForAll = TRUE
   EmptyMeansAll = FALSE
   StatusSucceeds = FALSE
+  StarWithCreds = FALSE
   AliasCallerSet = FALSE
   MemoDecision = FALSE
-  StarWithCreds = TRUE
+  KeepHist = FALSE
+  MaxServed = 3
+  MaxMut = 2
 INVARIANT OnlyAllowedOrigins
 INVARIANT NoOriginUntouched
 INVARIANT GrantIsEchoOrStar
@@ -22,5 +25,6 @@ INVARIANT NoWildcardWithCredentials
 INVARIANT PreflightOnlyOnSuccessWithAllow
 INVARIANT AllowRemovedOnPreflight
 INVARIANT DeniedPreflightWithdrawsGrants
-INVARIANT NoApprovalAfterRaise
 INVARIANT AllowOtherwiseKept
+INVARIANT GrantFunctionOfConfigAndRequest
+PROPERTY PolicyFixedAtConstruction
